@@ -78,6 +78,10 @@ class SxContract:
     def native(self, env, inputs):
         return None
 
+    def native_variants(self, env):
+        """float inputs derived from one sampled point (e.g. rescaled affinities) for the degraded mode"""
+        yield env
+
 
 def run_sx(contract, seed=0):
     from . import sx, prove, dag
@@ -143,28 +147,67 @@ def run_sx(contract, seed=0):
         det = dict(det)
         det["paths"] = npaths
         if st == REFUTED and det.get("env") is not None and "replayed" not in det:
-            try:
-                r = c.native({k: float(v) for k, v in det["env"].items()}, inputs)
-            except Exception as e:
-                r = None
-                det["native_error"] = repr(e)
-                if name.endswith(":no-exception"):
-                    # the real code raises on the concrete input as well: that input is the failing input
-                    det["replayed"] = True
-                    det["native_exception"] = traceback.format_exc(limit=6)
-            if r is not None:
-                short = name[len(c.label) + 1:]
-                hit = r.get(short)
-                if hit is None:
-                    hit = r.get("*")
-                if hit is not None:
-                    det["replayed"] = (not hit[0])
-                    det["native"] = hit[1]
+            short = name[len(c.label) + 1:]
+            envf = {k: float(v) for k, v in det["env"].items()}
+            if name.endswith(":no-exception"):
+                # the symbolic run raised.  Repeat natively: if the real code raises too, that input is
+                # the failing input; otherwise the symbolic layer lacks an operation the code uses and
+                # the contract is *degraded* to a numeric comparison on the real code (never a violation
+                # by itself, never counted as discharged)
+                st, be, det = _degrade(c, ctx, inputs, envf, det)
+            else:
+                try:
+                    r = c.native(envf, inputs)
+                except Exception as e:
+                    r = None
+                    det["native_error"] = repr(e)
+                if r is not None:
+                    hit = r.get(short)
+                    if hit is None:
+                        hit = r.get("*")
+                    if hit is not None:
+                        det["replayed"] = (not hit[0])
+                        det["native"] = hit[1]
         obs.append(Ob(name, st, be, "P", det, tm, c.fn))
     obs.append(Ob(f"{c.label}:paths-explored", PROVED if paths else UNDECIDED, "dfs", "I",
                   {"paths": len(paths), "explore_s": round(t_explore, 3), "unwitnessed": n_unwitnessed,
                    "skipped_boundary_forks": ctx.skipped_boundaries, "stats": ctx.stats}, 0.0, c.fn))
     return obs
+
+
+def _degrade(c, ctx, inputs, envf, det):
+    det = dict(det)
+    try:
+        r = c.native(envf, inputs)
+    except Exception:
+        det["replayed"] = True
+        det["native_exception"] = traceback.format_exc(limit=6)
+        return REFUTED, "native-run", det
+    if r is None:
+        det["degraded"] = "symbolic run raised; the contract has no native replay"
+        return UNDECIDED, "degraded", det
+    envs = [envf]
+    for _ in range(40):
+        e = ctx.sample(tries=50)
+        if e is not None:
+            envs.append(e)
+    tried = 0
+    for e0 in envs:
+        for e in c.native_variants(e0):
+            tried += 1
+            try:
+                r = c.native(e, inputs)
+            except Exception:
+                det.update(replayed=True, native_exception=traceback.format_exc(limit=6), env=e)
+                return REFUTED, "native-run", det
+            bad = {k: v for k, v in (r or {}).items() if not v[0]}
+            if bad:
+                k = sorted(bad)[0]
+                det.update(replayed=True, native=bad[k][1], failed_clause=k, env=e)
+                return REFUTED, "native-numeric", det
+    det["degraded"] = (f"the symbolic run raised ({det.get('exception')}) but the real code does not on the same input: "
+                       f"contract compared numerically on the real code at {tried} points, all consistent")
+    return UNDECIDED, "degraded", det
 
 
 def _has_token(out):
